@@ -151,7 +151,20 @@ class Check:
         self.gen_info = {}
         self.failed_sigs = []
         self.extra_prop_files = []
+        self.boost = float(os.environ.get("PGV_BOOST", "1"))
+        self.stale_stamps = []
         self.replay_obj = json.loads(Path(replay).read_text()) if replay else None
+
+    # ---------------------------------------------------------------- sizes
+    def n(self, quick, thorough):
+        """Size of a generator loop: the thorough value in the thorough tier; in the quick tier the quick value times `boost`
+        (PGV_BOOST, or 3 when a source stamp of the property is stale: the modelled code has moved), never beyond the thorough value."""
+        if self.tier == "thorough":
+            return thorough
+        b = self.boost
+        if thorough >= quick:
+            return min(thorough, int(round(quick * b)))
+        return max(thorough, int(round(quick / b)))
 
     # ---------------------------------------------------------------- counting
     def count(self, key, nontrivial=True, sample=None, bucket=None):
@@ -312,6 +325,7 @@ class Check:
         obj["property"] = self.pid
         obj["seed"] = self.seed
         obj["tier"] = self.tier
+        obj["boost"] = self.boost
         blob = json.dumps(obj, sort_keys=True, default=str)
         dg = hashlib.md5(blob.encode()).hexdigest()[:10]
         rdir = Path(os.environ.get("PGV_REPLAY_DIR") or (VERIF / "replays"))
@@ -331,7 +345,7 @@ class Check:
     def finish(self, level="proof", checker_cmd=None, extra=None):
         # broken proof / correspondence without a concrete failing input
         if self.broken and not self.violations:
-            self.write_violation({"kind": "no-longer-shown", "broken": self.broken}, no_input=True)
+            self.write_violation({"kind": "no-longer-shown", "broken": self.broken, "functions_changed_since_model_validation": self.stale_stamps}, no_input=True)
         for f in self.known_hits:
             print(f"KNOWN-FINDING: property={self.pid} {f['id']}: {f['what']}", flush=True)
         self.cov["distinct_nontrivial"] = len(self._distinct)
@@ -346,6 +360,8 @@ class Check:
         self.cov["known_findings_reproduced"] = [f["id"] for f in self.known_hits]
         self.cov["generated"] = self.gen_info
         self.cov["notes"] = self.notes
+        self.cov["source_stamps"] = {"stale": self.stale_stamps, "boost": self.boost,
+                                     "what": "digests of the normalised AST of every function of the anchored files (harness/stamps.lock.json) compared with the current tree"}
         if extra:
             self.cov.update(extra)
         ev = {
@@ -433,6 +449,17 @@ def run_check(pid, tier, seed, replay, body, modules=None, gen=None, level="proo
             if tier == "thorough" and os.environ.get("PGV_SKIP_LEANCHECKER") != "1":
                 ck.leanchecker(mods)
         ck.proof_ok = ok and not ck.broken
+        # source stamps: has the code that the hand-written models mirror moved since they were last validated?
+        from . import stamps
+        lock = stamps.load_lock(VERIF).get("stamps", {}).get(pid)
+        if lock is not None:
+            ck.stale_stamps = stamps.compare(lock, stamps.current(REPO, anchor_files(pid)))
+            if ck.stale_stamps:
+                ck.boost = max(ck.boost, 3.0)
+                ck.notes.append("stale source stamps (functions of the anchored files whose normalised AST differs from the one the models were validated "
+                                "against; the quick-tier search was enlarged x3): " + "; ".join(ck.stale_stamps[:40]))
+        if ck.replay_obj is not None and ck.replay_obj.get("boost"):
+            ck.boost = float(ck.replay_obj["boost"])
         cov = None
         if os.environ.get("PGV_IMPCOV", "1") != "0":
             from . import impcov
